@@ -158,6 +158,22 @@ def stress_module(imported=False):
             ('local.get', 1), ('i32.const', 1), ('i32.sub',), ('local.set', 1), ('br', 0)])])]
         m.funcs.append(Func(m.type_index((I32, I32), ()), [t], body))
         m.exports.append((('incr_%d' % fi).encode(), 'func', len(m.funcs) - 1))
+        # addn(addr, n): n times fetch-add 1; drain(addr, n) -> sum (mod 2^width) of n exchanges with 0: the loops run inside the
+        # module, back to back - the tightest contention a guest can produce
+        addop = '%s.atomic.rmw%s.add%s' % (t, w, sfx)
+        xop = '%s.atomic.rmw%s.xchg%s' % (t, w, sfx)
+        body = [('block', None, [('loop', None, [
+            ('local.get', 1), ('i32.eqz',), ('br_if', 1),
+            ('local.get', 0), one, (addop, al, 0), ('drop',),
+            ('local.get', 1), ('i32.const', 1), ('i32.sub',), ('local.set', 1), ('br', 0)])])]
+        m.funcs.append(Func(m.type_index((I32, I32), ()), [], body))
+        m.exports.append((('addn_%d' % fi).encode(), 'func', len(m.funcs) - 1))
+        body = [('block', None, [('loop', None, [
+            ('local.get', 1), ('i32.eqz',), ('br_if', 1),
+            ('local.get', 0), ('%s.const' % t, 0), (xop, al, 0), ('local.get', 2), ('%s.add' % t,), ('local.set', 2),
+            ('local.get', 1), ('i32.const', 1), ('i32.sub',), ('local.set', 1), ('br', 0)])]), ('local.get', 2)]
+        m.funcs.append(Func(m.type_index((I32, I32), (t,)), [t], body))
+        m.exports.append((('drain_%d' % fi).encode(), 'func', len(m.funcs) - 1))
         # lock(addr, n): n times { spin on cmpxchg(addr, 0 -> 1); plain 64-bit counter at addr+64 += 1; atomic store 0 }:
         # a compare-exchange that reports success without having stored lets two threads into the critical section
         zero = ('%s.const' % t, 0)
@@ -195,7 +211,7 @@ static void* vf_resolve(const char* module, const char* name) {
 #define VF_RESOLVER NULL
 #endif
 static mInstance root;
-static int MODE, FL, T, N; static U32 ADDR = 64;
+static int MODE, FL, T, N; static U32 ADDR = 64; static int ADDERS_DONE, ADDERS_FINISHED;
 typedef struct { int tid; mInstance* inst; U64* olds; } W;
 static pthread_barrier_t bar;
 ''']
@@ -205,6 +221,14 @@ static pthread_barrier_t bar;
             ct = 'U32' if t == 'i32' else 'U64'
             out.append('  case %d: return (U64)m_%s_%d(i, ADDR, (%s)v);' % (fi, op, fi, ct))
         out.append('  } return 0; }')
+    out.append('static void do_addn(mInstance* i, U32 n) { switch (FL) {')
+    for fi, (t, w, nb) in enumerate(SHAPES):
+        out.append('  case %d: m_addn_%d(i, ADDR, n); return;' % (fi, fi))
+    out.append('  } }')
+    out.append('static U64 do_drain(mInstance* i, U32 n) { switch (FL) {')
+    for fi, (t, w, nb) in enumerate(SHAPES):
+        out.append('  case %d: return (U64)m_drain_%d(i, ADDR, n);' % (fi, fi))
+    out.append('  } return 0; }')
     out.append('static U64 do_cmpxchg(mInstance* i, U64 e, U64 v) { switch (FL) {')
     for fi, (t, w, nb) in enumerate(SHAPES):
         ct = 'U32' if t == 'i32' else 'U64'
@@ -230,6 +254,14 @@ static pthread_barrier_t bar;
 static void* worker(void* p) {
     W* w = (W*)p; int k;
     pthread_barrier_wait(&bar);
+    if (MODE == 11) {
+        /* loops inside the module: odd threads drain (sum modulo the access width), even threads add */
+        U64 msk = FL_BITS == 64 ? ~(U64)0 : (((U64)1 << FL_BITS) - 1);
+        if (w->tid % 2) { w->olds[0] = do_drain(w->inst, (U32)N) & msk; /* keep draining while the adders run */
+            for (k = 0; k < 200 && !__atomic_load_n(&ADDERS_DONE, __ATOMIC_SEQ_CST); k++) w->olds[0] = (w->olds[0] + do_drain(w->inst, (U32)N)) & msk; }
+        else { do_addn(w->inst, (U32)N); if (__atomic_add_fetch(&ADDERS_FINISHED, 1, __ATOMIC_SEQ_CST) >= (T + 1) / 2) __atomic_store_n(&ADDERS_DONE, 1, __ATOMIC_SEQ_CST); }
+        return NULL;
+    }
     for (k = 0; k < N; k++) {
         switch (MODE) {
         case 0: w->olds[k] = do_add(w->inst, 1); break;
@@ -241,6 +273,17 @@ static void* worker(void* p) {
         case 6: w->olds[k] = do_xor(w->inst, (U64)1 << (w->tid % (FL_BITS))); break;
         case 7: do_lock(w->inst, 1); break;
         case 8: if (w->tid % 2) do_incr(w->inst, 1); else (void)do_add(w->inst, 1); break;   /* fetch-add against compare-exchange loops on one cell */
+        case 10:
+            /* every kind of add-like read-modify-write against an exchange that drains the cell: thread kinds by tid % 4 - fetch-add 1;
+               xchg 0 (what it takes out is summed up); add 3 + sub 2; compare-exchange increment.  Whatever the interleaving,
+               what is left in the cell plus what the drainers took out equals the initial value plus one per iteration of the others */
+            switch (w->tid % 4) {
+            case 0: (void)do_add(w->inst, 1); break;
+            case 1: w->olds[0] = (w->olds[0] + do_xchg(w->inst, 0)) & (FL_BITS == 64 ? ~(U64)0 : (((U64)1 << FL_BITS) - 1)); break;   /* sum modulo the access width */
+            case 2: (void)do_add(w->inst, 3); (void)do_sub(w->inst, 2); break;
+            default: do_incr(w->inst, 1); break;
+            }
+            break;
         case 9:
             /* thread 0 stores a fresh value and reads it back; everybody else performs read-modify-writes that leave the cell as it
                is (add 0, sub 0, or 0, and ~0, xor 0, cmpxchg x->x): in every total order the load returns the value just stored */
@@ -293,6 +336,9 @@ BUILDS = {'gcc-O2': ['gcc', '-O2', '-w'], 'clang-O2': ['clang', '-O2', '-w'], 'g
           'clang-tsan': ['clang', '-O1', '-g', '-w', '-fsanitize=thread'],
           'gcc-O2-ndebug': ['gcc', '-O2', '-w', '-DNDEBUG'], 'clang-tsan-ndebug': ['clang', '-O1', '-g', '-w', '-fsanitize=thread', '-DNDEBUG'],
           # the big-endian code paths (mutex-based read-modify-write) under contention
+          # ThreadSanitizer on the big-endian paths: used with the add-loop / drain-loop mode only, whose operations (fetch-add, exchange)
+          # are all emulated under a lock there - two of them touching the cell without a common lock is a report
+          'clang-tsan-be': ['clang', '-O1', '-g', '-w', '-fsanitize=thread', '-DWASM_ENDIAN=1'],
           'gcc-O2-be': ['gcc', '-O2', '-w', '-DWASM_ENDIAN=1'], 'clang-O2-be': ['clang', '-O2', '-w', '-DWASM_ENDIAN=1']}
 _bin = {}
 
@@ -317,7 +363,7 @@ def stress_binary(build, imported=False):
     return _bin[key]
 
 
-MODES = ['add', 'sub', 'xchg', 'cas-incr', 'or', 'and', 'xor', 'cas-lock', 'add-vs-cas', 'store-vs-rmw']
+MODES = ['add', 'sub', 'xchg', 'cas-incr', 'or', 'and', 'xor', 'cas-lock', 'add-vs-cas', 'store-vs-rmw', 'mixed-vs-xchg-drain', 'addloop-vs-drainloop']
 
 
 def run_stress(case):
@@ -403,6 +449,22 @@ def run_stress(case):
         if final != (init + total) & M:
             return 'lost-update', ('fetch-add against compare-exchange increments, flavour %d T=%d N=%d: final %x, expected %x: the two '
                                    'kinds of read-modify-write do not exclude each other' % (fl, T, N, final, (init + total) & M)), inter
+    elif mode == 11:
+        inter = True
+        drained = sum(olds.get(t, [0])[0] for t in range(T) if t % 2 == 1)
+        incs = sum(N for t in range(T) if t % 2 == 0)
+        if (final + drained) & M != (init + incs) & M:
+            return 'lost-update', ('fetch-add loops against exchange(0) drain loops running inside the module, flavour %d T=%d N=%d build %s: left in the cell %x + '
+                                   'taken out by the drainers %x = %x, but initial value + additions = %x: add and exchange do not exclude each other'
+                                   % (fl, T, N, build, final, drained & M, (final + drained) & M, (init + incs) & M)), inter
+    elif mode == 10:
+        inter = True
+        drained = sum(olds.get(t, [0])[0] for t in range(T) if t % 4 == 1)
+        incs = sum(N for t in range(T) if t % 4 != 1)
+        if (final + drained) & M != (init + incs) & M:
+            return 'lost-update', ('add / add+sub / compare-exchange increments against exchange(0) drainers, flavour %d T=%d N=%d build %s: left in the cell %x + '
+                                   'taken out by the drainers %x = %x, but initial value + increments = %x: the kinds of read-modify-write do not '
+                                   'exclude each other' % (fl, T, N, build, final, drained & M, (final + drained) & M, (init + incs) & M)), inter
     elif mode == 9:
         inter = True
         o = olds.get(0, [0, 0, 0, 0])
@@ -432,7 +494,7 @@ def stress_task(wid, seed, params):
     for ci in range(params['ncases']):
         ch = Chooser(seed * 1000003 + ci)
         fl = (wid + ci) % len(SHAPES)
-        mode = (wid // 7 + ci // 7 + ch.below(10)) % 10
+        mode = (wid // 7 + ci // 7 + ch.below(12)) % 12
         bits = SHAPES[fl][2] * 8
         T = ch.pick((2, 3, 4, 8))
         cap = (1 << bits) - 2
@@ -440,6 +502,8 @@ def stress_task(wid, seed, params):
         if mode == 2 and bits < 32:
             N = max(min((cap - 1) // T, N), 1)
         build = params['builds'][(wid + ci) % len(params['builds'])]
+        if build == 'clang-tsan-be':
+            mode = 11
         if 'tsan' in build:
             N = min(N, 5000)
         case = {'kind': 'stress', 'mode': mode, 'flavour': fl, 'T': T, 'N': N, 'build': build, 'init': ch.bits(64) if mode in (2, 4, 6) else ch.below(3),
@@ -451,6 +515,15 @@ def stress_task(wid, seed, params):
         if mode == 9:
             case['N'] = N = ch.pick((20000, 100000, 400000)) if 'tsan' not in build else 3000
             case['T'] = T = max(T, 2)
+        if mode == 11:
+            case['N'] = N = ch.pick((100000, 400000)) if 'tsan' not in build else 3000
+            case['T'] = T = ch.pick((2, 3, 4, 8))
+            case['init'] = ch.below(3)
+        if mode == 10:
+            # the window between the read and the write of an emulated read-modify-write is a few nanoseconds: millions of iterations
+            case['N'] = N = ch.pick((1000000, 3000000)) if 'tsan' not in build else 3000
+            case['T'] = T = ch.pick((3, 4, 8))
+            case['init'] = ch.below(3)
         try:
             sig, msg, inter = run_stress(case)
         except cexec.InfraError as e:
@@ -502,11 +575,11 @@ def plan(tier, seed):
     if tier == 'quick':
         seq = [{'maker': 'c16_seq', 'ncases': 12, 'ccs': ['gcc-O0', 'clang-O2', 'gcc-O2', 'clang-O0', 'clang-O1-san', 'gcc-O1-be', 'clang-O2-be'], 'nsteps': 160,
                 'shrink_budget': 20, 'reduce_budget': 10} for _ in range(8)]
-        st = [{'stress': True, 'ncases': 14, 'builds': ['gcc-O2', 'clang-O2', 'clang-tsan', 'gcc-O0', 'gcc-O2-ndebug', 'clang-tsan-ndebug', 'gcc-O2-be', 'clang-O2-be']} for _ in range(8)]
+        st = [{'stress': True, 'ncases': 14, 'builds': ['gcc-O2', 'clang-O2', 'clang-tsan', 'gcc-O0', 'gcc-O2-ndebug', 'clang-tsan-ndebug', 'gcc-O2-be', 'clang-O2-be', 'clang-tsan-be']} for _ in range(8)]
         return seq + st + [{'big': True, 'ncases': 3, 'builds': ['clang-tsan', 'gcc-O2', 'clang-asan']} for _ in range(2)]
     seq = [{'maker': 'c16_seq', 'ncases': 200, 'ccs': ['gcc-O0', 'clang-O2', 'gcc-O2', 'clang-O0', 'clang-O1-san', 'gcc-O3', 'clang-O3', 'gcc-O1-be', 'clang-O2-be', 'gcc-O0-be'],
             'nsteps': 400, 'shrink_budget': 30, 'reduce_budget': 20} for _ in range(24)]
-    st = [{'stress': True, 'ncases': 300, 'builds': ['gcc-O2', 'clang-O2', 'clang-tsan', 'gcc-O0', 'gcc-O2-ndebug', 'clang-tsan-ndebug', 'gcc-O2-be', 'clang-O2-be']} for _ in range(16)]
+    st = [{'stress': True, 'ncases': 300, 'builds': ['gcc-O2', 'clang-O2', 'clang-tsan', 'gcc-O0', 'gcc-O2-ndebug', 'clang-tsan-ndebug', 'gcc-O2-be', 'clang-O2-be', 'clang-tsan-be']} for _ in range(16)]
     return seq + st + [{'big': True, 'ncases': 30, 'builds': ['clang-tsan', 'gcc-O2', 'clang-asan']} for _ in range(4)]
 
 
